@@ -110,6 +110,49 @@ func init() {
 				fr.WriteHeaders(http2.HeadersFrameParam{StreamID: 1, BlockFragment: hb.Bytes(), EndHeaders: true, EndStream: false})
 				time.Sleep(30 * time.Millisecond)
 				fr.WriteRSTStream(1, http2.ErrCodeCancel)
+			} else if neg == "h2" && (kv["how"] == "selfdep" || kv["how"] == "malformed" || kv["how"] == "trailersonly") {
+				// a complete exchange on stream 1; then the LAST stream of the connection is one the server refuses with a
+				// stream error (HEADERS depending on its own stream / a malformed header block) or a bare END_STREAM HEADERS
+				// with no body at all; the client then goes silent: the connection is idle all the same
+				io.WriteString(conn, http2.ClientPreface)
+				fr := http2.NewFramer(conn, conn)
+				fr.WriteSettings()
+				var hb bytes.Buffer
+				enc := hpack.NewEncoder(&hb)
+				block := func(extra ...[2]string) []byte {
+					hb.Reset()
+					for _, f := range append([][2]string{{":method", "GET"}, {":scheme", "https"}, {":path", "/"}, {":authority", "example.test"}, {"x-verif-tag", "life"}}, extra...) {
+						enc.WriteField(hpack.HeaderField{Name: f[0], Value: f[1]})
+					}
+					return append([]byte{}, hb.Bytes()...)
+				}
+				fr.WriteHeaders(http2.HeadersFrameParam{StreamID: 1, BlockFragment: block(), EndHeaders: true, EndStream: true})
+				conn.SetReadDeadline(time.Now().Add(3 * time.Second))
+				for {
+					f, err := fr.ReadFrame()
+					if err != nil {
+						break
+					}
+					if sf, ok := f.(*http2.SettingsFrame); ok && !sf.IsAck() {
+						fr.WriteSettingsAck()
+					}
+					if df, ok := f.(*http2.DataFrame); ok && df.StreamID == 1 && df.StreamEnded() {
+						break
+					}
+					if hf, ok := f.(*http2.HeadersFrame); ok && hf.StreamID == 1 && hf.StreamEnded() {
+						break
+					}
+				}
+				conn.SetReadDeadline(time.Time{})
+				switch kv["how"] {
+				case "selfdep":
+					fr.WriteHeaders(http2.HeadersFrameParam{StreamID: 3, BlockFragment: block(), EndHeaders: true, EndStream: true,
+						Priority: http2.PriorityParam{StreamDep: 3, Weight: 10}})
+				case "malformed":
+					fr.WriteHeaders(http2.HeadersFrameParam{StreamID: 3, BlockFragment: block([2]string{"Upper-Case", "x"}), EndHeaders: true, EndStream: true})
+				default:
+					fr.WriteHeaders(http2.HeadersFrameParam{StreamID: 3, BlockFragment: block(), EndHeaders: true, EndStream: true})
+				}
 			} else if neg == "h2" {
 				h2Exchange(conn, []string{"S:", "H:1.1.-.0.0"}, req)
 			} else {
@@ -123,6 +166,39 @@ func init() {
 			// the client keeps ITS end open until the proxy has released everything: a proxy that only half-closes and then
 			// waits for the client would otherwise go unnoticed
 			defer conn.Close()
+		case "pstall":
+			// HTTP/2 negotiated, then `at` octets of the connection preface (possibly none) and silence: the server's preface
+			// timeout (a fixed 10 s) must cut the connection and leave nothing behind; several clients in parallel
+			var conns []net.Conn
+			for _, as := range strings.Split(kv["ats"], ",") {
+				at, _ := strconv.Atoi(as)
+				conn, _, _, err := dialProxy(env, clientCfg{kind: "go", sni: "example.test", alpn: []string{"h2"}, peer: "127.0.0.1"})
+				if err != nil {
+					return "fail=handshake"
+				}
+				conn.SetDeadline(time.Time{})
+				io.WriteString(conn, http2.ClientPreface[:at%len(http2.ClientPreface)])
+				conns = append(conns, conn)
+			}
+			closed = "1"
+			res := make(chan bool, len(conns))
+			for _, conn := range conns {
+				go func(conn net.Conn) { res <- closedWithin(conn, 13*time.Second) }(conn)
+			}
+			for range conns {
+				if !<-res {
+					closed = "0"
+				}
+			}
+			for _, conn := range conns {
+				defer conn.Close()
+			}
+			ok, why := waitReleased(env, len(conns), 4*time.Second)
+			rel := "1"
+			if !ok {
+				rel = "0:" + why
+			}
+			return "closed=" + closed + " released=" + rel
 		case "hstall":
 			// send a prefix of a ClientHello (possibly nothing) and stall
 			c, err := net.DialTimeout("tcp", env.addr, 3*time.Second)
@@ -207,6 +283,12 @@ func init() {
 		}
 		c.op("life kind=idle proto=h2 idle=250 how=rst")
 		c.tag("kind:idle-after-rst")
+		for _, how := range []string{"selfdep", "malformed", "trailersonly"} {
+			c.op("life kind=idle proto=h2 idle=250 how=" + how)
+			c.tag("kind:idle-after-" + how)
+		}
+		c.op("life kind=pstall ats=0,10,23")
+		c.tag("kind:preface-stall")
 		for _, pre := range []string{"GET / HTTP/1.1\r\nHost: x\r\n\r\n", "POST /x HTTP/1.1\r\n", "HEAD ", "PUT /", "OPTIONS * HTTP/1.1\r\n\r\n", "CONNECT x:443 HTTP/1.1\r\n\r\n",
 			"PRI * HTTP/2.0\r\n\r\nSM\r\n\r\n", "\x80\x2e\x01\x00\x02", "\x16\x03\x01", "\x15\x03\x03\x00\x02\x02\x28", "\x00"} {
 			c.tag("kind:bstall")
@@ -220,8 +302,9 @@ func init() {
 				c.tag("kind:idle")
 				how := ""
 				if p == "h2" && r.chance(1, 2) {
-					how = " how=rst"
-					c.tag("kind:idle-after-rst")
+					h := []string{"rst", "selfdep", "malformed", "trailersonly"}[r.intn(4)]
+					how = " how=" + h
+					c.tag("kind:idle-after-" + h)
 				}
 				c.op(fmt.Sprintf("life kind=idle proto=%s idle=%d%s", p, []int{150, 300, 500}[r.intn(3)], how))
 			case 1:
